@@ -64,6 +64,7 @@ type Obligation struct {
 }
 
 type Exec struct {
+	atcallHits map[*Clause]int // atcall clauses: number of call sites they were checked at
 	tinvDone        map[string]bool
 	inHavoc         bool        // modelling a callee's or a loop's writes, not a write of the function under verification
 	offeredForms    [][2]string // (formula with offered witnesses, plain formula) since the last check/assume
